@@ -1695,6 +1695,18 @@ fn gen_logs(rec: &mut Rec, rng: &mut Rng, cases: u64, thorough: bool) {
             }
         }
     }
+    // messages that are nothing but white space (seed % 95 == 0 gives the byte 0x20) are messages too
+    rec.case("c05ws");
+    rec.op("init c0");
+    for seed in [0u64, 95, 190, 950] {
+        rec.op(&format!("log 1 {}", seed));
+        rec.op("logs?");
+    }
+    rec.op("logreq 1");
+    rec.op("logcopy 1 285");
+    rec.op("logs?");
+    rec.op("logunwind 1 380");
+    rec.op("logs?");
     // plans for enormous lengths (no copy: the message would not fit in memory)
     rec.case("c05big");
     rec.op("init c0");
